@@ -126,3 +126,23 @@ pub proof fn lemma_out_general(q: int, yinv: int, x: int)
 }
 
 } // verus!
+
+verus! {
+/// with q_O = -1 the output is forced to be x itself
+pub proof fn lemma_out_unique_minus_one(c: int, x: int)
+    requires 0 <= c < R(), 0 <= x < R(), md((R() - 1) * c + x) == 0
+    ensures c == x
+{
+    assert((R() - 1) * c + x == R() * c + (x - c)) by(nonlinear_arith);
+    lemma_md_multiple(c);
+    lemma_md_add(R() * c, x - c);
+    assert(md(R() * c + (x - c)) == md(md(R() * c) + (x - c)));
+    assert(md(x - c) == 0);
+    if x - c > 0 {
+        lemma_md_small(x - c);
+    } else if x - c < 0 {
+        lemma_md_small(x - c + R());
+        lemma_mod_add_multiples_vanish(x - c, R());
+    }
+}
+}
